@@ -270,7 +270,10 @@ type vfReveal struct {
 }
 
 // reveals evaluates the real TryReveal on the 64-byte window at every table offset of the stream.
-func (s *vfStation) reveals(stream []byte) []vfReveal {
+// Only revealed identifiers that are registered on the phantom are reported: the model does nothing
+// with a revealed identifier but look it up in that registry.
+func (s *vfStation) reveals(stream []byte, phantom net.IP) []vfReveal {
+	known := s.rm.GetRegistrations(phantom)
 	seen := map[int]bool{}
 	var out []vfReveal
 	for _, row := range s.table() {
@@ -284,9 +287,13 @@ func (s *vfStation) reveals(stream []byte) []vfReveal {
 			if err != nil || id == nil {
 				continue
 			}
-			rv.IDs = append(rv.IDs, hex.EncodeToString(id))
+			if _, ok := known[string(id)]; ok {
+				rv.IDs = append(rv.IDs, hex.EncodeToString(id))
+			}
 		}
-		out = append(out, rv)
+		if len(rv.IDs) > 0 {
+			out = append(out, rv)
+		}
 	}
 	return out
 }
